@@ -21,8 +21,8 @@ def _a(*dims):
     return DP + tuple(dims)
 
 
-def sig(order, ret=None, name=None, order_rel=None, facts=None, **params):
-    return {'order': order, 'params': params, 'ret': ret, 'name': name, 'order_rel': order_rel or {}, 'facts': facts or {}}
+def sig(order, ret=None, name=None, order_rel=None, facts=None, strict=False, **params):
+    return {'order': order, 'params': params, 'ret': ret, 'name': name, 'order_rel': order_rel or {}, 'facts': facts or {}, 'strict': strict}
 
 
 # kernels of RawAlgorithmsMixIn -------------------------------------------------------------------------------------------
@@ -32,6 +32,8 @@ KERNEL_SIGS = {
         sig(['x_data', 'y_data', 'out'], name='matrix.vector', x_data=_a('N', 'K'), y_data=_a('K'), out=_a('N'), ret=_a('N')),
         sig(['x_data', 'y_data', 'out'], name='vector.matrix', x_data=_a('K'), y_data=_a('K', 'M'), out=_a('M'), ret=_a('M')),
         sig(['x_data', 'y_data', 'out'], name='vector.vector', x_data=_a('K'), y_data=_a('K'), out=_a(), ret=_a()),
+        sig(['x_data', 'y_data', 'out'], name='tensor.matrix', x_data=_a('A', 'N', 'K'), y_data=_a('K', 'M'), out=_a('A', 'N', 'M'), ret=_a('A', 'N', 'M')),
+        sig(['x_data', 'y_data', 'out'], name='matrix.tensor', x_data=_a('N', 'K'), y_data=_a('B', 'K', 'M'), out=_a('N', 'B', 'M'), ret=_a('N', 'B', 'M')),
     ],
     '_dot_pullback': [
         sig(['zbar_data', 'x_data', 'y_data', 'z_data', 'out'], name='matrix.matrix', zbar_data=_a('N', 'M'), x_data=_a('N', 'K'), y_data=_a('K', 'M'),
@@ -68,6 +70,19 @@ KERNEL_SIGS = {
     '_qr_rectangular': [sig(['A_data', 'out'], order_rel={('N', 'M'): 'N'}, A_data=_a('M', 'N'), out=('tuple', [_a('M', 'N'), _a('N', 'N')]))],
     '_qr_rectangular_pullback': [sig(['Qbar_data', 'Rbar_data', 'A_data', 'Q_data', 'R_data', 'out'], order_rel={('N', 'M'): 'N'}, Qbar_data=_a('M', 'N'), Rbar_data=_a('N', 'N'),
                                      A_data=_a('M', 'N'), Q_data=_a('M', 'N'), R_data=_a('N', 'N'), out=_a('M', 'N'))],
+    '_qr': [
+        sig(['A_data', 'out', 'work', 'epsilon'], name='tall', order_rel={('N', 'M'): 'N'}, A_data=_a('M', 'N'), out=('tuple', [_a('M', 'N'), _a('N', 'N')])),
+        sig(['A_data', 'out', 'work', 'epsilon'], name='wide', order_rel={('N', 'M'): 'M'}, strict=True, A_data=_a('M', 'N'), out=('tuple', [_a('M', 'M'), _a('M', 'N')])),
+    ],
+    '_qr_pullback': [
+        sig(['Qbar_data', 'Rbar_data', 'A_data', 'Q_data', 'R_data', 'out'], name='tall', order_rel={('N', 'M'): 'N'}, Qbar_data=_a('M', 'N'), Rbar_data=_a('N', 'N'),
+            A_data=_a('M', 'N'), Q_data=_a('M', 'N'), R_data=_a('N', 'N'), out=_a('M', 'N')),
+        sig(['Qbar_data', 'Rbar_data', 'A_data', 'Q_data', 'R_data', 'out'], name='wide', order_rel={('N', 'M'): 'M'}, strict=True, Qbar_data=_a('M', 'M'), Rbar_data=_a('M', 'N'),
+            A_data=_a('M', 'N'), Q_data=_a('M', 'M'), R_data=_a('M', 'N'), out=_a('M', 'N')),
+    ],
+    '_qr_full': [sig(['A_data', 'out'], order_rel={('N', 'M'): 'N'}, A_data=_a('M', 'N'), out=('tuple', [_a('M', 'M'), _a('M', 'N')]))],
+    '_qr_full_pullback': [sig(['Qbar_data', 'Rbar_data', 'A_data', 'Q_data', 'R_data', 'out'], order_rel={('N', 'M'): 'N'}, Qbar_data=_a('M', 'M'), Rbar_data=_a('M', 'N'),
+                              A_data=_a('M', 'N'), Q_data=_a('M', 'M'), R_data=_a('M', 'N'), out=_a('M', 'N'))],
     '_diag': [
         sig(['v_data', 'k', 'out'], name='vector', v_data=_a('N'), ret=_a('N', 'N'), facts={'numpy.ndim(v_data) == 3': True}),
     ],
@@ -87,6 +102,10 @@ WRAPPER_SIGS = {
             facts={'isinstance(x, UTPM) and isinstance(y, UTPM)': True}),
         sig(['x', 'y', 'out'], name='UTPM.UTPM matrix.vector', x=_o('N', 'K'), y=_o('K'),
             facts={'isinstance(x, UTPM) and isinstance(y, UTPM)': True}),
+        sig(['x', 'y', 'out'], name='UTPM.UTPM tensor.matrix', x=_o('A', 'N', 'K'), y=_o('K', 'M'),
+            facts={'isinstance(x, UTPM) and isinstance(y, UTPM)': True}),
+        sig(['x', 'y', 'out'], name='UTPM.UTPM matrix.tensor', x=_o('N', 'K'), y=_o('B', 'K', 'M'),
+            facts={'isinstance(x, UTPM) and isinstance(y, UTPM)': True}),
         sig(['x', 'y', 'out'], name='UTPM.ndarray matrix.matrix', x=_o('N', 'K'), y=('K', 'M'),
             facts={'isinstance(x, UTPM) and isinstance(y, UTPM)': False, 'isinstance(x, UTPM) and (not isinstance(y, UTPM))': True}),
         sig(['x', 'y', 'out'], name='ndarray.UTPM matrix.matrix', x=('N', 'K'), y=_o('K', 'M'),
@@ -105,8 +124,58 @@ WRAPPER_SIGS = {
                    out=None, facts={'out is None': True})],
     'pb_outer': [sig(['zbar', 'x', 'y', 'z', 'out'], zbar=_o('N', 'M'), x=_o('N'), y=_o('M'), z=_o('N', 'M'), facts={'out is None': True})],
     'pb_solve': [sig(['ybar', 'A', 'x', 'y', 'out'], ybar=_o('N', 'K'), A=_o('N', 'N'), x=_o('N', 'K'), y=_o('N', 'K'), facts={'out is None': True})],
+    'solve': [
+        sig(['A', 'x', 'out'], name='UTPM.UTPM', A=_o('N', 'N'), x=_o('N', 'K'),
+            facts={'isinstance(A, UTPM) and isinstance(x, UTPM)': True, 'out is None': True, 'A_shp[2] != x_shp[2]': False}),
+        sig(['A', 'x', 'out'], name='ndarray.UTPM', A=('N', 'N'), x=_o('N', 'K'),
+            facts={'isinstance(A, UTPM) and isinstance(x, UTPM)': False, '(not isinstance(A, UTPM)) and isinstance(x, UTPM)': True}),
+        sig(['A', 'x', 'out'], name='UTPM.ndarray', A=_o('N', 'N'), x=('N', 'K'),
+            facts={'isinstance(A, UTPM) and isinstance(x, UTPM)': False, '(not isinstance(A, UTPM)) and isinstance(x, UTPM)': False,
+                   'isinstance(A, UTPM) and (not isinstance(x, UTPM))': True}),
+    ],
+    'qr': [sig(['A', 'out', 'work', 'epsilon'], order_rel={('N', 'M'): 'N'}, A=_o('M', 'N'), facts={'out is None': True})],
+    'qr_full': [sig(['A', 'out', 'work'], order_rel={('N', 'M'): 'N'}, A=_o('M', 'N'), facts={'out is None': True})],
+    'pb_qr': [sig(['Qbar', 'Rbar', 'A', 'Q', 'R', 'out'], order_rel={('N', 'M'): 'N'}, Qbar=_o('M', 'N'), Rbar=_o('N', 'N'), A=_o('M', 'N'), Q=_o('M', 'N'), R=_o('N', 'N'),
+                  facts={'out is None': True})],
+    'pb_qr_full': [sig(['Qbar', 'Rbar', 'A', 'Q', 'R', 'out'], order_rel={('N', 'M'): 'N'}, Qbar=_o('M', 'M'), Rbar=_o('M', 'N'), A=_o('M', 'N'), Q=_o('M', 'M'), R=_o('M', 'N'),
+                       facts={'out is None': True})],
     'pb_inv': [sig(['ybar', 'x', 'y', 'out'], ybar=_o('N', 'N'), x=_o('N', 'N'), y=_o('N', 'N'), facts={'out is None': True})],
 }
+
+
+def _actual(alt, fi):
+    """the declared signature with the parameter names the function uses today (declared parameters are identified by position)"""
+    import re
+    vp = fi.value_params()
+    order = alt['order']
+    if len(vp) < len([p for p in order if p in alt['params']]) or len(vp) < len(order) - 1:
+        return None
+    ren = {}
+    for i, p in enumerate(order):
+        if i < len(vp):
+            ren[p] = vp[i]
+    if any(p not in ren for p in alt['params']):
+        return None
+    facts = {}
+    for t, v in alt.get('facts', {}).items():
+        for a, b in ren.items():
+            t = re.sub(r'\b%s\b' % re.escape(a), '\0%s\0' % a, t)
+        for a, b in ren.items():
+            t = t.replace('\0%s\0' % a, b)
+        facts[t] = v
+    return dict(alt, order=[ren.get(p, p) for p in order], params={ren[p]: v for p, v in alt['params'].items()}, facts=facts)
+
+
+def _callee_orders(model):
+    """kernel name -> declared parameter name per position, and today's names (for keyword arguments at call sites)"""
+    ci = model.cls('RawAlgorithmsMixIn')
+    out = {}
+    for name, alts in KERNEL_SIGS.items():
+        fi = ci.methods.get(name) if ci else None
+        if fi is not None:
+            vp = fi.value_params()
+            out[name] = {vp[i]: p for i, p in enumerate(alts[0]['order']) if i < len(vp)}
+    return out
 
 
 def _report(r, fi, alt, ctx, rule):
@@ -132,7 +201,7 @@ def _sigs_for_calls():
     return KERNEL_SIGS
 
 
-def rule_dims_kernels(names, rule):
+def rule_dims_kernels(names, rule, floor=10):
     def rule_fn(ctx):
         r = RuleResult(rule, 'symbolic shape check: under every declared signature (pairwise different dimension symbols N, K, M) every dot has equal '
                              'inner dimensions, every element-wise operation is broadcastable, every store / out= fits its target, inv/solve get square '
@@ -145,19 +214,19 @@ def rule_dims_kernels(names, rule):
                 r.unknown(ALGO + ':' + name, 'kernel vanished')
                 continue
             for alt in KERNEL_SIGS[name]:
-                missing = [p for p in alt['params'] if p not in fi.params]
-                if missing:
-                    r.unknown(fi.site(), 'declared parameter(s) %s not found (signature table out of date)' % missing)
+                alt = _actual(alt, fi)
+                if alt is None:
+                    r.unknown(fi.site(), 'the function has fewer parameters than its declared signature (signature table out of date)')
                     continue
-                c = check_function(m, fi, alt, KERNEL_SIGS)
+                c = check_function(m, fi, alt, KERNEL_SIGS, _callee_orders(m))
                 _report(r, fi, alt, c, rule)
-        r.floor = 10
+        r.floor = floor
         return r
     rule_fn.__name__ = 'rule_dims_' + rule
     return rule_fn
 
 
-def rule_dims_wrappers(names, rule):
+def rule_dims_wrappers(names, rule, floor=4):
     def rule_fn(ctx):
         r = RuleResult(rule, 'symbolic shape check of the UTPM-level wrappers: the output array is allocated with the shape the kernel writes, '
                              'for operands of different extents (rows of the first, columns of the second operand)')
@@ -169,13 +238,13 @@ def rule_dims_wrappers(names, rule):
                 continue
             for alt in WRAPPER_SIGS[name]:
                 alt = dict(alt, params={k: v for k, v in alt['params'].items() if k != 'ret_obj'})
-                missing = [p for p in alt['params'] if p not in fi.params]
-                if missing:
-                    r.unknown(fi.site(), 'declared parameter(s) %s not found (signature table out of date)' % missing)
+                alt = _actual(alt, fi)
+                if alt is None:
+                    r.unknown(fi.site(), 'the method has fewer parameters than its declared signature (signature table out of date)')
                     continue
-                c = check_function(m, fi, alt, KERNEL_SIGS)
+                c = check_function(m, fi, alt, KERNEL_SIGS, _callee_orders(m))
                 _report(r, fi, alt, c, rule)
-        r.floor = 4
+        r.floor = floor
         return r
     rule_fn.__name__ = 'rule_dimsw_' + rule
     return rule_fn
